@@ -389,3 +389,17 @@ Proof.
   destruct (A _ _ Hk) as (ba' & Hk' & St). destruct (B _ _ _ Hk Ho Hs) as (su' & Hs' & HT).
   exists ba', su'. split; [exact Hk'|]. split; [apply St; exact Ho|]. split; [apply St|]. tauto.
 Qed.
+
+(* C08: a sealed batch row never changes at all (open flag, metadata, dates, issuer, project, denom) and its
+   total tradable + retired + cancelled stays what it was when the batch was sealed *)
+Theorem sealed_batch_row_is_final g s1 s2 k ba su :
+  Inv_run g -> reaches g s1 -> reaches s1 s2 ->
+  batches s1 !! k = Some ba -> ba_open ba = false -> supplies s1 !! k = Some su ->
+  batches s2 !! k = Some ba /\ exists su', supplies s2 !! k = Some su' /\ T su' = T su.
+Proof.
+  intros Hg H1 H2 Hk Ho Hs. destruct (reaches_seal_rel g s1 s2 Hg H1 H2) as [A B].
+  destruct (A _ _ Hk) as (ba' & Hk' & St). split; [|exact (B _ _ _ Hk Ho Hs)].
+  rewrite Hk'. f_equal. destruct St as (E1 & E2 & E3 & E4 & E5 & E6 & E7 & E8).
+  specialize (E7 Ho). specialize (E8 Ho). destruct ba, ba'. cbn in *. congruence.
+Qed.
+
